@@ -168,7 +168,7 @@ def c19(chk):
 def c12(chk):
     chk.rule = ("TLC enumerates every (window value, operation, argument) transition of StatusList.tla — quick: one byte, i.e. "
                 "every (byte value, bit offset, written value) triple, both purposes, plus credential-layer and validator ops; "
-                "thorough: two bytes. Each transition is replayed at 3 of 16 placements (4 list size classes x 4 byte "
+                "thorough: two bytes. Each transition is replayed at 3 of 24 placements (6 list size classes, 131 072 to 2 097 152 entries, x 4 byte "
                 "offsets) on real lists; result, window bits and 'all other bytes zero' are compared after decoding the "
                 "library's own encoding independently. Distinct+non-trivial = unique (purpose, pre, op) whose op changes a bit "
                 "or is refused.")
@@ -432,6 +432,63 @@ def flip_txn_case(rows, k=3):
     return out
 
 
+
+
+# ------------------------------------------------------------------------------------------------
+# Lifecycle composition (beyond the list): shared by the checks of C02 and C09, each judging its own keys
+# ------------------------------------------------------------------------------------------------
+
+def flip_lifecycle_case(rows, k=3):
+    """canary: invert the predicted verdict of the last validation of k behaviours"""
+    out = []
+    for r in rows:
+        ops = r.get("ops", [])
+        idx = [i for i, e in enumerate(ops) if e["op"]["name"] == "validate"]
+        if not idx:
+            continue
+        r = json.loads(json.dumps(r))
+        e = r["ops"][idx[-1]]
+        e["res"] = {"ok": False, "err": "signature"} if e["res"]["ok"] else {"ok": True}
+        r["ops"] = r["ops"][:idx[-1] + 1]
+        out.append(r)
+        if len(out) >= k:
+            break
+    if not out:
+        raise ToolError("canary: no validation step in the lifecycle behaviours")
+    return out
+
+
+def lifecycle_stage(chk, only_keys):
+    """Lifecycle.tla: design invariants over all states (VIEW without the history), every effective behaviour up to the
+    tier's depth replayed on the real objects, long simulated behaviours replayed, canary."""
+    mc = vlib.tlc_model_check(chk.prop, "Lifecycle", "Lifecycle_mc.cfg", emit=False, workers=4, timeout=600, heap="3g")
+    if mc["violated"]:
+        chk.violations.append(dict(key="%s/spec/Lifecycle" % chk.prop, detail=dict(kind="tlc-invariant", message=mc["violated"], output=mc["out"][-3000:])))
+        return
+    r = chk.mc("Lifecycle", "Lifecycle_paths_%s.cfg" % chk.tier, workers=8, timeout=1500, heap="6g")
+    chk.replay(r["cases_file"], tag=".life", prop_driver="LIFE", timeout=3000, vacuity=False, only_keys=only_keys)
+    chk.canary_cases(r["cases_file"], flip_lifecycle_case, prop_driver="LIFE")
+    # long behaviours: TLC simulation (every successor of every visited state at the final depth is emitted)
+    simf = os.path.join(vlib.workdir(chk.prop), "Lifecycle_sim.cases.raw.ndjson")
+    n = q(chk, 40, 1500)
+    s = vlib.run_tlc(chk.prop, "Lifecycle", os.path.join(vlib.SPEC, "Lifecycle_sim.cfg"), workers=1, timeout=1500, emit_to=simf,
+                     simulate="num=%d" % n, tlc_args=["-depth", "26", "-seed", str(chk.seed)], heap="3g")
+    if s["violated"]:
+        raise ToolError("Lifecycle simulation: %s" % s["violated"])
+    uniq = os.path.join(vlib.workdir(chk.prop), "Lifecycle_sim.cases.ndjson")
+    seen = set()
+    with open(simf) as f, open(uniq, "w") as g:
+        for line in f:
+            if line not in seen:
+                seen.add(line)
+                g.write(line)
+    if not seen:
+        raise ToolError("Lifecycle simulation emitted no behaviour")
+    chk.replay(uniq, tag=".lifesim", prop_driver="LIFE", timeout=3000, vacuity=False, only_keys=only_keys)
+    chk.extra["lifecycle"] = dict(design_states=mc["states"], behaviours_exhaustive=r["cases"], behaviours_simulated=len(seen),
+                                  simulated_depth=24, judged_keys=only_keys)
+
+
 @plan("C09")
 def c09(chk):
     chk.rule = ("TLC explores the step machine of generate_method / purge_method (one action per storage call) from every "
@@ -449,6 +506,9 @@ def c09(chk):
     chk.extra["unrepaired_design_counterexample_found"] = bool(pre["violated"])
     if not pre["violated"]:
         raise ToolError("the unrepaired rollback design (reinsert) should violate AllOrNothing — the invariant is vacuous")
+    # composition: histories of generate / purge / issue / validate without faults -- document, key store and key-id
+    # store stay in step (judged here); validation verdicts over the same histories are judged by the C02 check
+    lifecycle_stage(chk, r"lifecycle/(generate|purge|issue|attach|detach|panic|[a-z]+/inconsistent_state)")
     chk.level = "model_checking"
     chk.assumptions += ["a failing storage call has no effect and returns an error (the fault model of the property)",
                         "Ed25519/EdDSA only (the key type of the shipped in-memory store)"]
@@ -684,6 +744,9 @@ def c02(chk):
     r = chk.mc("CredentialValidation", "CredentialValidation_%s.cfg" % chk.tier, workers=4, timeout=900, heap="6g")
     chk.replay(r["cases_file"], timeout=7000)
     chk.canary_cases(r["cases_file"], flip_validation_case)
+    # composition: earlier tokens validated against the document as it is NOW, over histories of generate / purge /
+    # rotate / attach / detach / revoke / unrevoke (Lifecycle.tla); this check judges the validation verdicts
+    lifecycle_stage(chk, r"lifecycle/(validate|panic)")
     chk.assumptions += ["validation bounds are set explicitly (no dependence on the current time)",
                         "with fail-fast any one false condition's error is accepted (the property says 'an error identifying it')",
                         "Ed25519 primitive trusted; status checking with RevocationBitmap2022 only"]
